@@ -239,3 +239,72 @@ pub fn dict_pairs(cfg: &Cfg, always: usize, extra: usize) -> Vec<[u8; 2]> {
     }
     v
 }
+
+// ---------------------------------------------------------------------------------------
+// Auto-dictionary: integer literals found in the source tree under test that the pinned tree
+// does not contain (computed by ./check, handed over in VCHECK_EXTRA_LITERALS). Workloads add
+// them to their value dictionaries, the way fuzzers seed themselves with a program's
+// comparison constants. Empty on the unchanged tree.
+// ---------------------------------------------------------------------------------------
+
+pub fn extra_literals() -> &'static [u32] {
+    static L: std::sync::OnceLock<Vec<u32>> = std::sync::OnceLock::new();
+    L.get_or_init(|| {
+        let mut v: Vec<u32> = std::env::var("VCHECK_EXTRA_LITERALS")
+            .unwrap_or_default()
+            .split(',')
+            .filter_map(|t| t.trim().parse::<u32>().ok())
+            .filter(|x| *x <= 16383)
+            .collect();
+        v.dedup();
+        v.truncate(24);
+        v
+    })
+}
+
+/// 7-bit values derived from the extra literals (the literal itself, and both halves of a
+/// 14-bit literal); at most 8
+pub fn extra_values7() -> Vec<u8> {
+    let mut v: Vec<u8> = Vec::new();
+    for &x in extra_literals() {
+        let cands = if x <= 127 { vec![x as u8] } else { vec![(x >> 7) as u8, (x & 127) as u8] };
+        for c in cands {
+            if !v.contains(&c) && v.len() < 8 {
+                v.push(c);
+            }
+        }
+    }
+    v
+}
+
+/// 14-bit numbers derived from the extra literals: the literals themselves and every ordered
+/// pair of the first 7-bit values as (msb, lsb); at most 40
+pub fn extra_numbers14() -> Vec<u16> {
+    let mut v: Vec<u16> = Vec::new();
+    for &x in extra_literals() {
+        if !v.contains(&(x as u16)) {
+            v.push(x as u16);
+        }
+    }
+    let v7 = extra_values7();
+    for &a in v7.iter().take(5) {
+        for &b in v7.iter().take(5) {
+            let n = a as u16 * 128 + b as u16;
+            if !v.contains(&n) && v.len() < 40 {
+                v.push(n);
+            }
+        }
+    }
+    v
+}
+
+/// channels among the extra literals, plus the manager channels
+pub fn extra_channels() -> Vec<u8> {
+    let mut v: Vec<u8> = vec![0];
+    for &x in extra_literals() {
+        if x <= 15 && !v.contains(&(x as u8)) && v.len() < 4 {
+            v.push(x as u8);
+        }
+    }
+    v
+}
